@@ -155,3 +155,135 @@ func HarnessC20() {
 	// C04: `code` is required by money.json's Base, which Money composes through allOf/$ref
 	zzvrt.Check("C04.multi-doc.required-through-allOf-ref-branch", zzvrt.Implies(zzvrt.DIs(d, "tag/code", zzvrt.KAbsent), zzvrt.Not(accepted)))
 }
+
+// ---- the real loaders on a virtual file system (C10 file resolution, C20 placement) ----
+
+const zzFS = "/tmp/zzvfs/in"
+
+func zzNewFS(cfg Config) *Generator {
+	cfg.Warner = func(string) {}
+	if cfg.Tags == nil {
+		cfg.Tags = []string{"json", "yaml", "mapstructure"}
+	}
+	g, err := New(cfg) // Loader nil: the default cached multi/file loader
+	if err != nil {
+		zzvrt.Unreachable("New failed")
+	}
+	return g
+}
+
+// HarnessC10Files: a chain of file references across directories (root -> model/order ->
+// model/types/money), each $ref resolved relative to the document that contains it, with or
+// without --resolve-extension probing; a decoy money.json sits where a resolution relative to
+// the root document would find it (a resolution relative to the working directory finds nothing).  The emitted root type enforces the REAL
+// money.json on a symbolic document.
+func HarnessC10Files() {
+	mn := zzvrt.Int()
+	zzvrt.Assume(zzvrt.And(mn > 0, mn <= 1<<20))
+	ext := ".json"
+	cfg := Config{DefaultPackageName: "example.com/gen", DefaultOutputName: "out.go"}
+	if zzvrt.Bool() {
+		ext = "" // references written without extension, found by probing
+		cfg.ResolveExtensions = []string{".yaml", ".json"}
+	}
+	zzvrt.VFileData(zzFS+"/schemas/root.json", `{"$id": "https://example.com/root", "type": "object",
+  "properties": {"order": {"$ref": "model/order`+ext+`"}}, "required": ["order"]}`)
+	// a cycle through two files in different directories (order refers back to root)
+	back := zzvrt.Bool()
+	backProp := ""
+	if back {
+		backProp = `, "back": {"$ref": "../root` + ext + `"}`
+	}
+	zzvrt.VFileData(zzFS+"/schemas/model/order.json", `{"$id": "https://example.com/order", "type": "object",
+  "properties": {"price": {"$ref": "types/money`+ext+`"}`+backProp+`}, "required": ["price"]}`)
+	zzvrt.VFileData(zzFS+"/schemas/model/types/money.json", `{"$id": "https://example.com/money", "type": "object",
+  "properties": {"code": {"type": "string", "minLength": 3}}, "required": ["code"]}`)
+	// decoys: what a resolution relative to the wrong document would pick up
+	zzvrt.VFileData(zzFS+"/schemas/types/money.json", `{"$id": "https://example.com/decoy", "type": "object", "properties": {"code": {"type": "integer"}}}`)
+	_ = mn
+	g := zzNewFS(cfg)
+	zzvrt.Cover("file-chain:ext=" + ext + map[bool]string{true: "/cycle", false: ""}[back])
+	if err := g.DoFile(zzFS + "/schemas/root.json"); err != nil {
+		zzvrt.Note("generator error: " + err.Error())
+		// recorded finding: the generator created for a referenced file keeps the raw $ref string as
+		// its file name; a reference cycle through files in different directories re-enters a
+		// document through that generator and resolves its references against the raw string
+		zzvrt.Check("C10.files.chain-of-relative-references-resolves", false,
+			zzvrt.Dev{Name: "file-reference-cycle-across-directories-fails", Cond: back})
+		return
+	}
+	zzvrt.Check("C10.files.chain-of-relative-references-resolves", true)
+	src := string(g.Sources()["out.go"])
+	zzvrt.Emit("out.go", src)
+	h := zzvrt.Stage2(src)
+	if !zzvrt.S2OK(h) {
+		zzvrt.Note(zzvrt.S2Errors(h))
+		zzvrt.Check("C10.files.emitted-code-compiles", false)
+		return
+	}
+	d := zzvrt.NewDoc()
+	zzTypeCorrectObject(d)
+	zzvrt.Assume(zzvrt.DIs(d, "order", zzvrt.KObject))
+	zzvrt.Assume(zzvrt.DIs(d, "order/price", zzvrt.KObject))
+	zzvrt.Assume(zzvrt.DIs(d, "order/back", zzvrt.KAbsent))
+	rootType := "RootJson"
+	if !zzvrt.S2HasType(h, rootType) {
+		rootType = "Root" // --resolve-extension .json also trims the extension from type names
+	}
+	_, accepted, ok := zzRunT("C10.files", h, rootType, "json", d)
+	if !ok {
+		return
+	}
+	code := zzvrt.DStr(d, "order/price/code")
+	zzvrt.Assume(zzvrt.Iff(len(code) >= 3, zzvrt.RuneLen(code) >= 3)) // outside the byte/rune finding
+	zzvrt.Check("C10.files.reference-means-the-file-next-to-its-referrer",
+		zzvrt.Iff(accepted, zzvrt.And(zzvrt.DIs(d, "order/price/code", zzvrt.KString), len(code) >= 3)))
+}
+
+// HarnessC20Solo: two schema files with the SAME base name in different directories, mapped
+// to different packages and files: whatever the argument order, each output is byte-identical
+// to the output of generating that schema alone.
+func HarnessC20Solo() {
+	zzvrt.VFileData(zzFS+"/billing/config.json", `{"$id": "https://example.com/billing", "type": "object",
+  "properties": {"currency": {"type": "string", "minLength": 3}}, "required": ["currency"],
+  "$defs": {"item": {"type": "object", "properties": {"sku": {"type": "string"}}}}}`)
+	zzvrt.VFileData(zzFS+"/shipping/config.json", `{"$id": "https://example.com/shipping", "type": "object",
+  "properties": {"carrier": {"type": "string"}, "first": {"$ref": "#/$defs/item"}}, "required": ["carrier"],
+  "$defs": {"item": {"type": "object", "properties": {"weight": {"type": "integer", "minimum": 0}}}}}`)
+	maps := []SchemaMapping{
+		{SchemaID: "https://example.com/billing", PackageName: "example.com/gen/billing", OutputName: "gen/billing/config.go"},
+		{SchemaID: "https://example.com/shipping", PackageName: "example.com/gen/shipping", OutputName: "gen/shipping/config.go"},
+	}
+	if zzvrt.Bool() {
+		maps[0].RootType, maps[1].RootType = "Settings", "Settings"
+	}
+	files := []string{zzFS + "/billing/config.json", zzFS + "/shipping/config.json"}
+	outs := []string{"gen/billing/config.go", "gen/shipping/config.go"}
+	solo := map[string]string{}
+	for k, f := range files {
+		g := zzNewFS(Config{SchemaMappings: maps, DefaultPackageName: "example.com/gen", DefaultOutputName: "-"})
+		if err := g.DoFile(f); err != nil {
+			zzvrt.Unreachable("solo generation failed: " + err.Error())
+		}
+		solo[outs[k]] = string(g.Sources()[outs[k]])
+	}
+	first, second := 0, 1
+	if zzvrt.Bool() {
+		first, second = 1, 0
+	}
+	g := zzNewFS(Config{SchemaMappings: maps, DefaultPackageName: "example.com/gen", DefaultOutputName: "-"})
+	for _, k := range []int{first, second} {
+		if err := g.DoFile(files[k]); err != nil {
+			zzvrt.Note("generator error: " + err.Error())
+			zzvrt.Check("C20.solo.two-schemas-generate-together", false)
+			return
+		}
+	}
+	zzvrt.Cover("same-base-name/first:" + files[first])
+	srcs := g.Sources()
+	zzvrt.Check("C20.solo.exactly-the-mapped-outputs", len(srcs) == 2)
+	for _, o := range outs {
+		zzvrt.Emit(o, string(srcs[o]))
+		zzvrt.Check("C20.solo.each-output-equals-its-solo-run", string(srcs[o]) == solo[o])
+	}
+}
